@@ -5,10 +5,10 @@ set -e
 VERIF="$(cd "$(dirname "$0")/.." && pwd)"
 REPO="${VERIF_REPO:-/repo}"
 export GOFLAGS=-mod=mod GOPROXY=off GOSUMDB=off GOTOOLCHAIN=local
-mkdir -p "$VERIF/build/tools" "$VERIF/coq/gen"
+mkdir -p "$VERIF/build/tools" "${VERIF_COQ:-$VERIF/coq}/gen"
 ( cd "$VERIF/tools/tab2coq" && go build -o "$VERIF/build/tools/tab2coq" . )
 M="$REPO/modeling/marching"
-"$VERIF/build/tools/tab2coq" -o "$VERIF/coq/gen/MarchTable.v" \
+"$VERIF/build/tools/tab2coq" -o "${VERIF_COQ:-$VERIF/coq}/gen/MarchTable.v" \
   -header "marching-cubes tables of modeling/marching/table.go and canvas.go" \
   "$M/table.go:edges" \
   "$M/table.go:triangulation" \
